@@ -203,3 +203,9 @@ package usermanager
 //@   ensures refused: ret0 != nil
 //@ func (*Voidmanager).DeleteUser
 //@   ensures refused: ret0 != nil
+
+// JustInt32 / JustInt64 (C18): the optional fields of a UserInfo built by the API callers carry the value given.
+//@ func JustInt32
+//@   ensures carries: ret0 != nil && *ret0 == v
+//@ func JustInt64
+//@   ensures carries: ret0 != nil && *ret0 == v
